@@ -15,7 +15,7 @@ FUNCTIONS = ["gcmpy.message_passing.equations.clique_equation.clique_equation",
 STUBS = []
 BOUNDS = {
     "quick": "clique_equation tau=2..6 with tau-1 distinct symbolic H and symbolic phi; chordless cycles n=3..8; "
-             "Q(n,.) for n<=9 and QQ(n,.) for n<=5 through the component-decomposition identity in a real variable x "
+             "Q(n,.) for n<=12 and QQ(n,.) for n<=5 through the component-decomposition identity in a real variable x "
              "(all k at once) plus out-of-range k; number_of_connected_graphs on every graph with <=4 vertices x every "
              "vertex subset x focal vertex and on four 6-8 vertex substrates with bridges (whole vertex set / one vertex left out), all k at once as a "
              "polynomial identity in phi",
@@ -46,7 +46,7 @@ def configs(tier):
         cfgs.append({"name": f"clique-tau{tau}", "kind": "clique", "tau": tau})
     for n in range(3, 9 if q else 15):
         cfgs.append({"name": f"cycle-n{n}", "kind": "cycle", "n": n})
-    for n in range(1, 10 if q else 15):
+    for n in range(1, 13 if q else 15):
         cfgs.append({"name": f"Q-n{n}", "kind": "Q", "n": n, "fn": "Q"})
     for n in range(1, 6 if q else 7):
         cfgs.append({"name": f"QQ-n{n}", "kind": "Q", "n": n, "fn": "QQ"})
@@ -164,8 +164,9 @@ def path(ctx, cfg):
         before = (sorted(G.nodes()), sorted(map(sorted, G.edges())))
         poly = 0
         counts = []
+        ak_obj = list(ak)  # one list object reused for every call, as a caller would
         for k in range(0, m + 2):
-            c = ctx.guard("counter-raised", number_of_connected_graphs, G, list(ak), i, k)
+            c = ctx.guard("counter-raised", number_of_connected_graphs, G, ak_obj, i, k)
             counts.append(c)
             if k <= m:
                 poly = poly + c * phi ** (m - k) * (1 - phi) ** k
@@ -174,7 +175,8 @@ def path(ctx, cfg):
                     f"number_of_connected_graphs on nodes={nodes} edges={edges} subset={sub}: counts {counts} disagree with "
                     f"the reliability polynomial", twin=eq(poly + phi, ref), logic="QF_NRA")
         ctx.require(counts[m + 1] == 0, "counter-identity", f"removing {m + 1} of {m} edges gave {counts[m + 1]} graphs")
-        ctx.require((sorted(G.nodes()), sorted(map(sorted, G.edges()))) == before, "counter-input-untouched", "substrate graph was modified")
+        ctx.require((sorted(G.nodes()), sorted(map(sorted, G.edges()))) == before and ak_obj == list(ak), "counter-input-untouched",
+                    f"substrate graph or the caller's vertex list was modified: ak={ak_obj} (given {list(ak)})")
         ctx.observe("counts", counts)
         return
     raise ValueError(kind)
